@@ -63,6 +63,40 @@ class FalsyAwaitable(object):
         return "leaf"
 
 
+class GenLikeAwaitable(object):
+    """A future-like leaf that speaks the generator protocol (send/throw/close, like asyncio's FutureIter) without
+    being a generator: it has no gi_frame, nothing to unwrap - it is where the chain ends."""
+
+    def __init__(s):
+        s.n = 0
+
+    def __await__(s):
+        return s
+
+    def __iter__(s):
+        return s
+
+    def __next__(s):
+        return s.send(None)
+
+    def send(s, v):
+        s.n += 1
+        if s.n > 1:
+            raise StopIteration("done")
+        return "leaf"
+
+    def throw(s, typ, val=None, tb=None):
+        if val is None:
+            val = typ() if isinstance(typ, type) else typ
+        raise val
+
+    def close(s):
+        pass
+
+
+LEAF_CODES = set(f.__code__ for f in (GenLikeAwaitable.__next__, GenLikeAwaitable.send, GenLikeAwaitable.throw, GenLikeAwaitable.close))
+ENDS = ("trap", "iter", "falsy", "genlike")
+
 SRC = '''
 async def co_{i}(nxt, pre):
     if pre:
@@ -176,8 +210,8 @@ def build(kinds, end, outer, pre):
             def term():
                 yield "trap"
             inner = ch.reg(term())
-        elif end == "falsy":
-            ch.leaf = FalsyAwaitable()
+        elif end in ("falsy", "genlike"):
+            ch.leaf = FalsyAwaitable() if end == "falsy" else GenLikeAwaitable()
             inner = ch.leaf
         else:
             ch.leaf = iter(["leaf"])
@@ -189,8 +223,8 @@ def build(kinds, end, outer, pre):
         return ch
     if end == "trap":
         inner = ch.reg(trap())
-    elif end == "falsy":
-        aw = FalsyAwaitable()
+    elif end in ("falsy", "genlike"):
+        aw = FalsyAwaitable() if end == "falsy" else GenLikeAwaitable()
         ch.leaf = aw
         inner = aw
     else:
@@ -238,11 +272,11 @@ def specs(maxlen):
     """All chain specs: (kinds, end, outer, pre)."""
     for L in range(0, maxlen + 1):
         for kinds in itertools.product(AW_KINDS, repeat=L):
-            for end in ("trap", "iter", "falsy"):
+            for end in ENDS:
                 for outer in ("co", "gco"):
                     for pre in (False, True):
                         yield (list(kinds), end, outer, pre)
-        for end in ("trap", "iter", "falsy"):
+        for end in ENDS:
             for pre in (False, True):
                 yield (["yf"] * L, end, "gen", pre)
 
@@ -257,6 +291,7 @@ def long_specs():
     yield ([mix[i % len(mix)] for i in range(45)], "iter", "gco", False)
     yield (["yf"] * 120, "trap", "gen", False)
     yield (["co"] * 110, "falsy", "co", False)
+    yield ([mix[i % len(mix)] for i in range(70)], "genlike", "co", False)
 
 
 def advance(ch, k):
@@ -277,6 +312,7 @@ def tb_frames(exc):
     out = []
     tb = exc.__traceback__
     while tb is not None:
-        out.append((tb.tb_frame, tb.tb_lineno))
+        if tb.tb_frame.f_code not in LEAF_CODES:
+            out.append((tb.tb_frame, tb.tb_lineno))
         tb = tb.tb_next
     return out
